@@ -48,6 +48,9 @@ type Case struct {
 	DigitPath bool
 	// HyphenPath: the last element of the struct import path is not an identifier ("go-<pkg>_x") and differs from the package name.
 	HyphenPath bool
+	// TimeSuffixPath: the last element of the struct import path ends in "time" ("…/uptime"), so that a
+	// struct-package type called Duration / Time is qualified as `…uptime.Duration` in the generated file.
+	TimeSuffixPath bool
 	// PrefixTarget: the target package name is a proper prefix of the struct package name (k5s -> k5).
 	PrefixTarget bool
 	// TypesNamedPkg: the struct package is called `types` (like the framework package the generated file
@@ -113,6 +116,9 @@ func (w *Workspace) Prepare(c *Case) {
 		}
 		if c.HyphenPath {
 			c.StructImport = base + "/go-" + c.StructPkg + "_x"
+		}
+		if c.TimeSuffixPath {
+			c.StructImport = base + "/uptime"
 		}
 		if c.DigitPath {
 			c.StructImport = DigitModule + "/cases/" + c.Name + "/" + c.StructPkg
